@@ -112,8 +112,8 @@ class StubRng:
         low = np.asarray(low, dtype=float)
         high = np.asarray(high, dtype=float)
         if low.ndim == 0 and self.want is not None:
-            # plain prioritized sampling: all priorities are equal in this check (no updates),
-            # so u = (i + 1/2)/len lands strictly inside entry i's interval
+            # plain prioritized sampling: all priorities are equal in this check (no updates other than the
+            # all-zero state), so u = (i + 1/2)/len lands strictly inside entry i's interval
             n = self.n_valid
             return (np.asarray(self.want, dtype=float) + 0.5) / n
         return low + self.frac * (high - low)
@@ -143,6 +143,8 @@ def canon(bd):
             # age of the transition whose tag sits in each written slot (slots < current_len)
             ages = tuple(int(round(n - (float(v) - bd.off[t]) / 10.0)) for v in col0[: buf.current_len])
         hid = e1.hidden_state(buf, KNOWN_BUF) + (e1.hidden_state(buf.priority, KNOWN_PRI) if hasattr(buf, "priority") else ())
+        if hasattr(buf, "priority"):
+            hid += (tuple(float(x) for x in buf.priority.priority[: buf.current_len]),)
         out.append((buf.insert_idx, buf.current_len, ages, hid))
     if hasattr(bd.buf, "buffers"):
         return (tuple(out), bd.buf.selected_task, tuple(sorted(bd.buf.active_buffers)), e1.hidden_state(bd.buf, {"buffers", "selected_task", "active_buffers", "sampled_task_idx"}))
@@ -220,6 +222,8 @@ def ops(bd):
         if bufs[0].current_len > 0:
             for b in sorted({1, 2, cfg["cap"] + 1}):
                 out.append(("sample", b))
+            if hasattr(bufs[0], "priority") and cfg["cls"] == "LAP" and any(float(x) != 0.0 for x in bufs[0].priority.priority[: bufs[0].current_len]):
+                out.append(("zero",))  # degenerate priorities: content guarantees must still hold
     else:
         for i in range(-1, cfg["tasks"] + 1):
             out.append(("select", i))
@@ -314,6 +318,18 @@ def apply(bd, op):
             elif canon(bd) != before:
                 col.violation(SIG.format(entry + ".select_task", "rejected-select-changed-state"), dict(hist=hist, task=i))
         return ("select", i, raised)
+    if op[0] == "zero":
+        n = bd.buf.current_len
+        rng = StubRng()
+        rng.want, rng.n_valid = list(range(n)), n
+        try:
+            bd.buf.sample_batch(n, rng)
+            bd.buf.update_priority(0.0)
+        except Exception as e:  # noqa: BLE001
+            col.violation(SIG.format(entry + ".update_priority", "raised"), dict(hist=hist, error=f"{type(e).__name__}: {str(e)[:100]}"))
+        col.tick(1)
+        col.outcome("states_with_all_priorities_zero")
+        return ("zero",)
     if op[0] == "sample":
         if not mt:
             do_sample(bd, bd.buf, 0, op[1], entry + ".sample_batch", hist)
